@@ -39,6 +39,7 @@ def dispatch (e : Engines) (ws : List String) : Engines × String :=
     else if w == "hr.rewire" then (e, "observed")     -- same ordering question for an already cached asset; oracle only
     else if w == "hr.newdep" then (e, "observed")     -- known finding F-C05d: the outcome depends on a hash-set order; oracle only
     else if w == "own.sizes" then (e, "intact")       -- C13: a reload swaps the whole value, whatever its size and alignment
+    else if w == "by.iterlie" then (e, "same")        -- C16: the bytes are the iterator's items, whatever its size hint claims (oracle only)
     else if w.startsWith "by." then let (s, o) := Driver.Bytes.step e.bytes ws; ({ e with bytes := s }, o)
     else if w.startsWith "watch." then
       let (s, o) := Driver.Watch.step e.watch ws; ({ e with watch := s }, o)
